@@ -21,6 +21,26 @@ CLAIMED = {
     ),
 }
 
+CLAIMED["C10"] = dict(
+    category="proof",
+    text=("Machine-checked (Coq) proof that for every text (any list of code points, unbounded) the scanner model terminates "
+          "normally and its token spans tile the text before the first NUL: spans are non-empty, ordered, start at 0 and end at "
+          "the end, every gap between them consists of U+EBAD only, and nothing else is dropped (theorem C10_tiling and "
+          "consequences). The model is the rule table regenerated from _uscan.re on every run by a fail-closed translator, re2c "
+          "longest-match/first-rule semantics over a verified derivative matcher, and a hand transcription of every action "
+          "(found/merge/last_ebad, tablemode, rowchar, section retagging, the cursor rewinds, newline/break split). It is tied to "
+          "the running code by an exhaustive differential run of the extracted scanner against the rebuilt _uscan.cc through "
+          "utoken.scan (1.4M texts quick, 30M thorough, exact token lists), plus the tiling oracle on the real output."),
+    design_ref="DESIGN.md §6 C10",
+    note=("Trusted: Coq kernel and vm_compute; the re2c-subset translator vt/gen/c10_rules.py; the hand transcription of the C++ "
+          "actions (pinned textually against _uscan.cc and tied by the differential run); ExtrOcamlBasic extraction and "
+          "ocaml/c10/driver.ml; re2c code generation and the C++/CPython glue (covered only by the differential run). Not "
+          "modelled: int overflow of tablemode and offsets. A U+EBAD inside a URL, html tag or comment is covered by that token, "
+          "which the property allows."),
+    technique=("Coq proof (derivative matcher correctness, rule-table obligations by vm_compute, loop invariant over the consumed "
+               "prefix) + source-to-Coq rule translator + extracted-model exhaustive differential correspondence + tiling-oracle search"),
+)
+
 NOT_YET = {
 }
 
